@@ -25,6 +25,9 @@ FIXED = {
     "const-clash-num-first": "n := 0\nn = n + 1\nlabel := \"0\" + \"1\"\nfor ch := range \"10\"\n    label = label + ch\nend\nm := {k:\"1\"}\nlabel = label + m[\"k\"]\nx := [10 1 0][n]\nx = x\n",
     "const-clash-bool": "b := true\ns := \"true\"\ns = s + \"false\"\nb = b and false\nb = !b\nt := \"2\" < \"10\"\nu := 2 < 10\nt = t == u\n",
     "const-clash-range": "y := 2024\nc := 0\nfor ch := range \"2024\"\n    c = c + 1\nend\nfor i := range 2\n    c = c + i\nend\ns := \"2\" + \"0\"\nc = c + y\ns = s\n",
+    # strings with code points of 2, 3 and 4 bytes: ranged over, indexed, sliced, compared
+    "str-nonascii-range": "n := 0\ns := \"\"\nfor ch := range \"d\u00e9j\u00e0 vu\"\n    n = n + 1\n    s = s + ch\nend\nfor range \"\u65e5\u672c\"\n    n = n + 1\nend\nw := \"a\u20acb\U0001f600\"\nfor c := range w\n    s = c + s\nend\n",
+    "str-nonascii-ops": "s := \"d\u00e9j\u00e0\"\nc := s[1]\nc = s[-1]\nt := s[1:3]\nt = s[:2] + s[2:]\nb := s < \"e\"\nb = s == t\nc = c + t\n",
     "if": "x := 1\nif x > 0\n    x = 2\nend\n",
     "if-else": "x := 1\nif x > 0\n    x = 2\nelse\n    x = 3\nend\n",
     "if-elseif": "x := 1\nif x > 2\n    x = 2\nelse if x > 1\n    x = 3\nelse if x > 0\n    x = 4\nend\n",
@@ -163,7 +166,7 @@ class Gen:
         if ty == STR:
             if leaf:
                 # also strings that look like the number and boolean constants of the program
-                return '"%s"' % r.choice(["a", "bc", "hello", "x y", "a", "bc", "hello", "x y", "", "0", "1", "2", "3", "5", "10", "0.5", "100", "true", "false", "-1"])
+                return '"%s"' % r.choice(["a", "bc", "hello", "x y", "a", "bc", "hello", "x y", "", "0", "1", "2", "3", "5", "10", "0.5", "100", "true", "false", "-1", "d\u00e9j\u00e0", "\u65e5\u672c", "a\u20acb", "\U0001f600"])
             k = r.randrange(4)
             if k == 0 and self.inloop:
                 k = 1       # no concatenation inside loops (s = s + s doubles the value every time round)
